@@ -236,6 +236,44 @@ func genfs(c *harness.Ctx) {
 	}
 	// a sibling that must never be touched
 	os.WriteFile(filepath.Join(root, "sibling.go"), []byte("package sibling"), 0644)
+	// a directory OUTSIDE the target that looks exactly like generated output, reachable through a symbolic link the
+	// user keeps inside the target: nothing out there is the generator's, whatever it is called
+	elsewhere, link := "", ""
+	if targetMode != 1 && c.Choose(5, "symlink") == 4 {
+		elsewhere = filepath.Join(root, "elsewhere")
+		os.MkdirAll(filepath.Join(elsewhere, "pkg"), 0755)
+		os.WriteFile(filepath.Join(elsewhere, "Other"+suffix), []byte("// generated by somebody else"), 0444)
+		os.WriteFile(filepath.Join(elsewhere, manifest), []byte("{}"), 0444)
+		os.WriteFile(filepath.Join(elsewhere, "pkg", "Deep"+suffix), []byte("// generated by somebody else"), 0444)
+		os.WriteFile(filepath.Join(elsewhere, "notes.txt"), []byte("user notes"), 0644)
+		link = filepath.Join(target, "linked")
+		if c.Bool("symlink-relative") {
+			os.Symlink(filepath.Join("..", "elsewhere"), link)
+		} else {
+			os.Symlink(elsewhere, link)
+		}
+		desc = append(desc, link+"@ -> elsewhere/")
+		c.Probe("symlink-to-a-directory-outside-the-target")
+	}
+	elsewhereFiles, elsewhereDirs := map[string][]byte{}, map[string]bool{}
+	if elsewhere != "" {
+		elsewhereFiles, elsewhereDirs = readTree(elsewhere)
+	}
+	checkElsewhere := func(when, workload string) bool {
+		if elsewhere == "" {
+			return true
+		}
+		f, d := readTree(elsewhere)
+		if !sameTree(elsewhereFiles, f) || !sameDirs(elsewhereDirs, d) {
+			c.Fail("C20", "outside-target-touched", "outside-target-touched", "%s: the directory outside the target that a symbolic link inside it points to was changed (it had %d files and %d directories, now %d and %d) (%s)", when, len(elsewhereFiles), len(elsewhereDirs), len(f), len(d), workload)
+			return false
+		}
+		if st, err := os.Lstat(link); err != nil || st.Mode()&os.ModeSymlink == 0 {
+			c.Fail("C20", "foreign-file-removed", "foreign-file-removed:symlink", "%s: the user's symbolic link %s is gone (%s)", when, link, workload)
+			return false
+		}
+		return true
+	}
 	for i := range desc {
 		desc[i] = strings.TrimPrefix(desc[i], root+"/")
 	}
@@ -358,7 +396,7 @@ func genfs(c *harness.Ctx) {
 			c.Fail("C20", "monitor", "monitor:"+monitorSig(r.monitor[0]), "%s: the ownership monitor flagged a destructive call: %s (%s)", when, r.monitor[0], workload)
 			return
 		}
-		if !checkForeign(when) {
+		if !checkForeign(when) || !checkElsewhere(when, workload) {
 			return
 		}
 		crashed := r.fired && strings.HasPrefix(f.kind, "crash")
